@@ -21,29 +21,46 @@ let b2s b = if b then "1" else "0"
 let watermark rf log = (wm_initialize rf wm_init (cr_counts log)).wm_mark
 let total log = List.length (List.concat log)
 
-let dispatch line =
-  match split_ws line with
-  | ["rp"; rf; l; s; e; c] ->
-    let rf = n_of_string rf and log = parse_layout l and s = n_of_string s in
-    let w = watermark rf log in
+(* the five reads at watermark [w]; [count_at] = the on-disk confirmation count of the event at a sequence *)
+let answer rf log w count_at kind args =
+  match kind, args with
+  | "rp", [s; e; c] ->
+    let s = n_of_string s in
     let acc, more = partition_read (cr_partition_commits log s) [] w s (opt e) (n_of_string c) in
     Printf.sprintf "%s more=%s" (nlist acc) (b2s more)
-  | ["rs"; rf; l; x; s; e; c] ->
-    let rf = n_of_string rf and log = parse_layout l and s = n_of_string s in
-    let w = watermark rf log in
+  | "rs", [x; s; e; c] ->
+    let s = n_of_string s in
     let acc, more = stream_read (cr_stream_commits (n_of_string x) log s) [] w (opt e) (n_of_string c) in
     Printf.sprintf "%s more=%s" (list_str (fun (v, q) -> string_of_n v ^ "@" ^ string_of_n q) acc) (b2s more)
-  | ["re"; rf; l; s] ->
-    let rf = n_of_string rf and log = parse_layout l in
-    let w = watermark rf log in
-    let ev = if BZ.lt (BZ.of_string s) (BZ.of_int (total log)) then cr_event_at log (n_of_string s) else None in
+  | "re", [s] ->
+    let ev = if BZ.lt (BZ.of_string s) (BZ.of_int (total log)) then Some (n_of_string s, count_at (int_of_string s)) else None in
     (match read_event ev (wm_quorum rf) w with Some q -> string_of_n q | None -> "none")
-  | ["sv"; rf; l; x] ->
+  | "sv", [x] ->
+    (match stream_version (cr_stream_rev_commits (n_of_string x) log) w with Some v -> string_of_n v | None -> "none")
+  | "ps", [] ->
+    (match partition_sequence w with Some v -> string_of_n v | None -> "none")
+  | _ -> "BADCASE"
+
+let parse_deliveries s =
+  if s = "-" then [] else
+  List.map (fun t -> match split_on ':' t with [a; b] -> (int_of_string a, n_of_string b) | _ -> failwith "delivery") (split_on ',' s)
+
+let dispatch line =
+  match split_ws line with
+  | "lv" :: rf :: l :: d :: kind :: args ->
+    let rf = n_of_string rf and log = parse_layout l and ds = parse_deliveries d in
+    (* first sequence and size of every transaction *)
+    let _, spans = List.fold_left (fun (pos, acc) c -> (pos + List.length c, acc @ [(pos, List.length c)])) (0, []) log in
+    let span t = List.nth spans t in
+    let reports = List.concat_map (fun (t, c) -> let (f, n) = span t in cr_confirm_reports (n_of_string (string_of_int f)) (nat_of_int n) c) ds in
+    let st = cr_live_state rf log reports in
+    let initial = Array.of_list (cr_counts log) in
+    List.iter (fun (t, c) -> let (f, n) = span t in for i = f to f + n - 1 do initial.(i) <- c done) ds;   (* set_confirmations overwrites *)
+    answer rf log st.wm_mark (fun i -> initial.(i)) kind args
+  | kind :: rf :: l :: args ->
     let rf = n_of_string rf and log = parse_layout l in
-    (match stream_version (cr_stream_rev_commits (n_of_string x) log) (watermark rf log) with Some v -> string_of_n v | None -> "none")
-  | ["ps"; rf; l] ->
-    let rf = n_of_string rf and log = parse_layout l in
-    (match partition_sequence (watermark rf log) with Some v -> string_of_n v | None -> "none")
+    let counts = Array.of_list (cr_counts log) in
+    answer rf log (watermark rf log) (fun i -> counts.(i)) kind args
   | _ -> "BADCASE"
 
 let () = Conv.main dispatch
